@@ -204,9 +204,15 @@ Next ==
     \/ /\ Len(committed) < MaxP
        /\ Commit(MkPdu(Len(committed) + 1), Len(committed) - txCtr < TxCap)
     \/ \E p \in CPdus, vis \in BOOLEAN : Read(p, vis)
-    \/ \E p \in CPdus, out \in Outcomes, ackC, dataC, accC, vis \in BOOLEAN :
-          /\ IF Len(stored) >= RxCap THEN out \in {"lost", "nobuf"} ELSE out # "nobuf"
-          /\ Exchange([sn |-> cSn, nesn |-> cNesn, pdu |-> p], out, ackC, dataC, accC, vis)
+    \/ /\ air = <<>>
+       /\ \E p \in CPdus :
+            LET c == [sn |-> cSn, nesn |-> cNesn, pdu |-> p] IN
+            /\ CentralSends(c)
+            /\ \E out \in Outcomes :
+                 /\ IF Len(stored) >= RxCap THEN out \in {"lost", "nobuf"} ELSE out # "nobuf"
+                 /\ \E ackC \in (IF out = "lost" THEN {TRUE} ELSE BOOLEAN), dataC \in (IF out = "lost" THEN {TRUE} ELSE BOOLEAN),
+                       accC \in (IF Rsv(p) /\ out = "ok" THEN BOOLEAN ELSE {TRUE}), vis \in BOOLEAN :
+                      Exchange(c, out, ackC, dataC, accC, vis)
     \/ \E pout \in POutcomes : CentralRx(pout)
 
 Spec == Init /\ [][Next]_vars
